@@ -612,6 +612,39 @@ def r03_13(chk, P, rule='R03.13'):
                         'the loop repeats the same seek and the same reads'))
     return n
 
+def r03_15(chk, P, rule='R03.15'):
+    chk.rule(rule, 'the link count and the tables it sizes change together: in every function of vorbisfile.c that stores '
+             'OggVorbis_File.links, no return is reachable on a path on which links has been stored and one of the per-link tables '
+             'the clear function walks with that count (vi, vc) has not been (re)allocated by the same invocation (K2 flags per '
+             'path; a table stored before the count counts too).  ov_clear runs over vf->links entries of vf->vi and vf->vc: a count '
+             'raised ahead of a fallible step leaves it walking past the one-element tables when that step fails')
+    from rules.c08 import VF
+    tables = ('vi', 'vc')
+    n = 0
+    for F in P.functions():
+        if not F.file.endswith('vorbisfile.c') or F.entry is None:
+            continue
+        st = [e for e in F.nodes('assign') if F.ex[F.strip_casts(F.ex[e]['c'][0])].get('field') == 'links'
+              and F.ex[F.strip_casts(F.ex[e]['c'][0])].get('record') == 'OggVorbis_File']
+        if not st:
+            continue
+        setters = [('links', k2.stores_field(VF, 'links', ops=None), True)]
+        for t in tables:
+            setters.append((t, k2.stores_field(VF, t, ops=None), True))
+        A, h = k2.analyse(P, F, setters)
+        bad = []
+        for (e, env, v) in A.ret_states:
+            fl = env.get('$flags', frozenset())
+            if 'links' in fl and not set(tables) <= fl:
+                bad.append((e, sorted(set(tables) - fl)))
+        bad.sort(key=lambda x: F.loc(x[0]))
+        n += 1
+        chk.ob(rule, F.name, 'count-and-tables-change-together', not bad, F.where(bad[0][0]) if bad else F.where(st[0]),
+               (f'`{F.s(bad[0][0])[:40]}` is reachable after `{F.s(st[0])}` with vf->{bad[0][1][0]} still at its old extent: ov_clear walks '
+                f'vf->links entries of it') if bad else f'every return behind `{F.s(st[0])}` has (re)allocated {list(tables)}')
+    return n
+
+
 def run(chk, P):
     r03_2(chk, P)
     chk.floor('R03.2', 1)
@@ -642,6 +675,8 @@ def run(chk, P):
     chk.floor('R03.11', 1)
     r03_13(chk, P)
     chk.floor('R03.13', 2)
+    r03_15(chk, P)
+    chk.floor('R03.15', 2)
     from rules import c07
     chk.rule('R03.12', 'no per-link value outlives a link switch: a local derived from the handle\'s current link (ov_info(vf,-1), '
              'vf->vi+vf->current_link, ...) is not used after a call that may change vf->current_link without being recomputed -- a '
